@@ -78,6 +78,8 @@ func reasonCategory(stage, msg string) string {
 	switch {
 	case stage == "generate-panic":
 		return "generator-panics"
+	case stage == "generate-hang":
+		return "generator-hangs"
 	case stage == "parse-error":
 		return "idl-rejected"
 	case stage == "generate-error" && has("expected "):
